@@ -28,6 +28,36 @@ def full (n : Nat) : Nat := 2 ^ n - 1
 def getM (st : List Nat) (v : Nat) : Nat := st.getD v 0
 def maskOf (l : List Nat) : Nat := l.foldl (fun a x => a ||| bit x) 0
 
+/-! ### the common shape of the two fixed-point loops
+
+```
+change = True
+while change:
+    change = False
+    for node in nodes:
+        new = …                       # `f st node`; `none` = the body does nothing for this node
+        if new != cur[node]:
+            change = True
+            cur[node] = new
+```
+-/
+
+def sweepNode (f : List Nat → Nat → Option Nat) (acc : List Nat × Bool) (v : Nat) : List Nat × Bool :=
+  match f acc.1 v with
+  | none => acc
+  | some new => if new != getM acc.1 v then (acc.1.set v new, true) else acc
+
+def sweepPass (f : List Nat → Nat → Option Nat) (n : Nat) (st : List Nat) : List Nat × Bool :=
+  (List.range n).foldl (sweepNode f) (st, false)
+
+def sweepLoop (f : List Nat → Nat → Option Nat) (n : Nat) : Nat → List Nat → Option (List Nat)
+  | 0, _ => none
+  | k + 1, st =>
+    let r := sweepPass f n st
+    if r.2 then sweepLoop f n k r.1 else some r.1
+
+def pdFuel (n : Nat) : Nat := n * n + 2
+
 /-! ### calculate_post_dominators -/
 
 def pdInit (n exit : Nat) : List Nat :=
@@ -39,32 +69,19 @@ def pdNew (st : List Nat) (v s0 : Nat) (rest : List Nat) : Nat :=
 
 /-- body of `for node in nodes:`; `skipRoot = true` is the current code (the
     exit node is skipped), `false` the code before the fix commit -/
-def pdNode (skipRoot : Bool) (succ : Adj) (exit : Nat) (acc : List Nat × Bool) (v : Nat) : List Nat × Bool :=
-  if skipRoot && v == exit then acc else
+def pdF (skipRoot : Bool) (succ : Adj) (exit : Nat) (st : List Nat) (v : Nat) : Option Nat :=
+  if skipRoot && v == exit then none else
   match row succ v with
-  | [] => acc
-  | s0 :: rest =>
-    let new := pdNew acc.1 v s0 rest
-    if new != getM acc.1 v then (acc.1.set v new, true) else acc
-
-def pdPass (skipRoot : Bool) (n : Nat) (succ : Adj) (exit : Nat) (st : List Nat) : List Nat × Bool :=
-  (List.range n).foldl (pdNode skipRoot succ exit) (st, false)
-
-def pdLoop (skipRoot : Bool) (n : Nat) (succ : Adj) (exit : Nat) : Nat → List Nat → Option (List Nat)
-  | 0, _ => none
-  | f + 1, st =>
-    let r := pdPass skipRoot n succ exit st
-    if r.2 then pdLoop skipRoot n succ exit f r.1 else some r.1
-
-def pdFuel (n : Nat) : Nat := n * n + 2
+  | [] => none                                   -- `if succ_pdoms:`
+  | s0 :: rest => some (pdNew st v s0 rest)
 
 /-- `calculate_post_dominators(nodes, exit_node)`: entry `v` = mask of `_pdom[v]` -/
 def postDominators (n : Nat) (succ : Adj) (exit : Nat) : Option (List Nat) :=
-  pdLoop true n succ exit (pdFuel n) (pdInit n exit)
+  sweepLoop (pdF true succ exit) n (pdFuel n) (pdInit n exit)
 
 /-- the same before commit "fix: fixed-point (post-)dominators must not re-evaluate the root node" -/
 def postDominatorsLegacy (n : Nat) (succ : Adj) (exit : Nat) : Option (List Nat) :=
-  pdLoop false n succ exit (pdFuel n) (pdInit n exit)
+  sweepLoop (pdF false succ exit) n (pdFuel n) (pdInit n exit)
 
 /-! ### calculate_immediate_post_dominators -/
 
@@ -179,20 +196,11 @@ def dominanceFrontier (n : Nat) (succ : Adj) (idom : List (Option Nat)) (root : 
 
 def reachInit (n : Nat) (succ : Adj) : List Nat := (List.range n).map fun v => maskOf (row succ v)
 
-def reachNode (succ : Adj) (acc : List Nat × Bool) (v : Nat) : List Nat × Bool :=
-  let new := (row succ v).foldl (fun a m => a ||| getM acc.1 m) (getM acc.1 v)
-  if new != getM acc.1 v then (acc.1.set v new, true) else acc
-
-def reachPass (n : Nat) (succ : Adj) (st : List Nat) : List Nat × Bool :=
-  (List.range n).foldl (reachNode succ) (st, false)
-
-def reachLoop (n : Nat) (succ : Adj) : Nat → List Nat → Option (List Nat)
-  | 0, _ => none
-  | f + 1, st =>
-    let r := reachPass n succ st
-    if r.2 then reachLoop n succ f r.1 else some r.1
+/-- `new_reach = set(self._reach[node]); for m in node.successors: new_reach |= self._reach[m]` -/
+def reachF (succ : Adj) (st : List Nat) (v : Nat) : Option Nat :=
+  some ((row succ v).foldl (fun a m => a ||| getM st m) (getM st v))
 
 /-- `calculate_reach`: entry `v` = mask of `_reach[v]` -/
-def reach (n : Nat) (succ : Adj) : Option (List Nat) := reachLoop n succ (pdFuel n) (reachInit n succ)
+def reach (n : Nat) (succ : Adj) : Option (List Nat) := sweepLoop (reachF succ) n (pdFuel n) (reachInit n succ)
 
 end Model.Dom
